@@ -281,6 +281,7 @@ impl BPETokenizer {
 //@rule R4
 //@rule R6_bpe_new
 //@rule R16(vt_keys_sorted_by_id ;; vt_keys)
+    #[verifier::loop_isolation(false)]
     pub fn new(config: BPETokenizerConfig, special_config: SpecialConfig) -> (res: VtResult<Self>)
         requires obeys_key_model::<Vec<u8>>(),
         ensures
@@ -378,6 +379,7 @@ impl BPETokenizer {
 //@rule R4
 //@rule R6_extend_ref
 //@rule R6_extend_as_bytes
+    #[verifier::loop_isolation(false)]
     fn de_tokenize(
         &self,
         token_ids: &[u32],
@@ -536,6 +538,7 @@ impl BPETokenizer {
 //@unit src/tokenization.rs fn tokenize impl=^impl\sTokenize\sfor\sBPETokenizer$
 //@rule R4
 //@rule R6_extend_call
+    #[verifier::loop_isolation(false)]
     fn tokenize(&self, s: &str, ignore_special_tokens: bool) -> (res: VtResult<Tokenization>)
         requires self.wf(), obeys_key_model::<String>(),
         ensures
